@@ -92,21 +92,27 @@ where
             let mut stream_pending = false;
 
             // If we've got a request buffered already, we need to write it to the replier
-            // before we can do anything else.
+            // before we can take another one.
+            let mut replier_busy = false;
             if buffered_req.is_some() && server.is_some() {
                 let si = &mut server.as_mut().as_pin_mut().unwrap().0;
-                match ready!(si.poll_ready_unpin(cx)) {
-                    Ok(()) => {
+                match si.poll_ready_unpin(cx) {
+                    Poll::Ready(Ok(())) => {
                         if let Err(e) = si.start_send_unpin(buffered_req.take().unwrap()) {
                             warn!("Unbinding replier after sink error: {e:?}");
                             *server = None;
                         }
                     }
                     // A broken replier is unbound so that another one can bind
-                    Err(e) => {
+                    Poll::Ready(Err(e)) => {
                         warn!("Unbinding replier after sink error: {e:?}");
                         *server = None;
                     }
+                    // The replier cannot take the request yet (its sink wakes this task when it
+                    // can). Keep serving its replies meanwhile: a replier that finishes writing a
+                    // reply before it reads its next request would otherwise wait for this task
+                    // to read while this task waits for it to read.
+                    Poll::Pending => replier_busy = true,
                 }
             }
 
@@ -240,7 +246,14 @@ where
                 }
             }
 
-            match stream.as_mut().poll_next(cx) {
+            // The waiting request keeps its slot until the replier has taken it
+            let next_request = if replier_busy {
+                Poll::Pending
+            } else {
+                stream.as_mut().poll_next(cx)
+            };
+
+            match next_request {
                 // Received message from a client stream
                 Poll::Ready(Some((id, Ok(item)))) => {
                     let mut payload = match item {
@@ -284,13 +297,19 @@ where
 
             if server_pending && stream_pending {
                 // Unwrapping is safe as the underlying sink is guaranteed not to error
-                ready!(sink.poll_flush(cx)).unwrap();
+                ready!(sink.as_mut().poll_flush(cx)).unwrap();
 
                 if server.is_some() {
                     let si = &mut server.as_mut().as_pin_mut().unwrap().0;
                     if let Err(e) = ready!(si.poll_flush_unpin(cx)) {
                         warn!("Unbinding replier after sink error: {e:?}");
                         *server = None;
+
+                        // The requestor streams were left alone in this turn: take another one
+                        // now that nothing holds the waiting request's slot any more.
+                        if replier_busy {
+                            continue;
+                        }
                     }
                 }
 
